@@ -187,8 +187,21 @@ def rule_class(ctx, rep, names, idx):
             r.finding(inst + "=>" + str(got), where, "classified as %s, but its lexer attributes make it %s" % (got, sorted(str(x) for x in allowed)))
 
 
-def depends_on_sub(b, op, depth=8):
-    """does the operand's value depend (through casts/moves/calls) on a subtraction?"""
+def _carried(b, o):
+    """is the operand state carried from one token to the next: a captured variable of a closure, or a local that is assigned more than
+    once (initialised before the loop, updated in it)?  `tok.span.start - tok.col` subtracts two values of the current token."""
+    p = op_place(o)
+    if p is None:
+        return False
+    rt = b.root(p)
+    if b.f["dk"] == "Closure" and rt[0] == 1:
+        return True
+    return len(b.defs.get(rt[0], [])) > 1 and not rt[1]
+
+
+def depends_on_sub(b, op, depth=8, carried=False):
+    """does the operand's value depend (through casts/moves/calls) on a subtraction?  With carried=True only a subtraction one of whose
+    operands is state carried over from the previous token counts."""
     seen = set()
     st = [op]
     while st and depth:
@@ -203,14 +216,15 @@ def depends_on_sub(b, op, depth=8):
         for d in b.defs.get(rt[0], []):
             if d[0] == "stmt":
                 rv = d[3]
-                if rv[0] == "bin" and rv[1] in ("Sub", "SubWithOverflow", "SubUnchecked"):
+                if rv[0] == "bin" and rv[1] in ("Sub", "SubWithOverflow", "SubUnchecked") and (not carried or _carried(b, rv[2]) or _carried(b, rv[3])):
                     return True
                 st.extend(rvalue_operands(rv))
                 if rv[0] == "ref":
                     st.append(["cp", rv[2]])
             elif d[0] == "call":
                 c = d[2]
-                if (c.callee or "").split("::")[-1] in ("abs_diff", "checked_sub", "wrapping_sub", "saturating_sub", "sub", "overflowing_sub"):
+                if (c.callee or "").split("::")[-1] in ("abs_diff", "checked_sub", "wrapping_sub", "saturating_sub", "sub", "overflowing_sub") \
+                        and (not carried or any(_carried(b, a) for a in c.args)):
                     return True
                 st.extend(c.args)
     return False
@@ -252,7 +266,7 @@ def reencoded_in_tokenize(ctx):
             for _, _, s in mc.all_stmts():
                 if s[0] == "=" and s[2][0] == "agg" and s[2][1].get("adt") == "lsp_types::semantic_tokens::SemanticToken":
                     ops = dict(zip(s[2][1]["fields"], s[2][2]))
-                    if depends_on_sub(mc, ops["delta_line"]) and depends_on_sub(mc, ops["delta_start"]):
+                    if depends_on_sub(mc, ops["delta_line"], carried=True) and depends_on_sub(mc, ops["delta_start"], carried=True):
                         good = True
             if not good:
                 continue
@@ -262,7 +276,49 @@ def reencoded_in_tokenize(ctx):
                     CONVERT_STEP[0] = norm(fc.id)
                     return True, "filter_map(convert) -> map(re-encode with differences) -> collect"
     CONVERT_STEP[0] = None
-    return False, "no filter_map(convert).map(re-encode).collect() chain with subtraction-dependent deltas in LspProject::tokenize"
+    # the same written as a loop: the returned vector is filled by push() only, and every pushed token is built right there with
+    # subtraction-dependent deltas (whatever was converted before is an intermediate value of the same function)
+    fin = pushed_final_tokens(b)
+    if fin and all(depends_on_sub(b, ops["delta_line"], carried=True) and depends_on_sub(b, ops["delta_start"], carried=True) for _, ops in fin):
+        CONVERT_STEP[0] = norm(b.id)
+        return True, "loop: every token pushed into the returned vector is built with differences"
+    return False, "no filter_map(convert).map(re-encode).collect() chain (or push loop) with subtraction-dependent deltas in LspProject::tokenize"
+
+
+def pushed_final_tokens(b):
+    """LspProject::tokenize in loop form: [(stmt, {field: operand})] of the SemanticToken aggregates pushed into the vector that is returned in
+    Ok(..); [] when the returned vector is not filled by pushes of tokens built in this body alone"""
+    ST = "lsp_types::semantic_tokens::SemanticToken"
+    vecs = set()
+    for i, j, st in b.all_stmts():
+        if st[0] == "=" and st[1] == [0, []] and st[2][0] == "agg" and st[2][1].get("variant") == "Ok" and st[2][2]:
+            p = op_place(st[2][2][0])
+            if p is not None:
+                vecs.add(b.root(p)[0])
+    out = []
+    for v in vecs:
+        if ST not in (b.f["locals"][v][0] or ""):
+            continue
+        defs = b.defs.get(v, [])
+        if not (defs and all(d[0] == "call" and (d[2].callee or "").endswith(("Vec::new", "Vec::with_capacity")) for d in defs)):
+            return []
+        for c in b.calls():
+            if not c.args:
+                continue
+            p0 = op_place(c.args[0])
+            if p0 is None or b.root(p0)[0] != v:
+                continue
+            nm = (c.callee or "").split("::")[-1]
+            if nm in ("len", "is_empty", "iter", "as_slice", "deref", "capacity", "reserve"):
+                continue
+            if nm != "push" or len(c.args) < 2:
+                return []
+            xp = op_place(c.args[1])
+            d = b.single_def(xp[0]) if xp is not None and not xp[1] else None
+            if not (d and d[0] == "stmt" and d[3][0] == "agg" and d[3][1].get("adt") == ST):
+                return []
+            out.append((d, dict(zip(d[3][1]["fields"], d[3][2]))))
+    return out
 
 
 def rule_verbatim(ctx, rep, rid="R-C15-verbatim"):
@@ -323,6 +379,7 @@ def rule_delta(ctx, rep):
         for _, _, s in b.all_stmts():
             if s[0] == "=" and s[2][0] == "agg" and s[2][1].get("adt") == LP + "LspTokenType" and not norm(b.id).startswith(LP + "LspProject::tokenize"):
                 outside.append(norm(b.id))
+
     for b in sorted(ctx.prog.bodies.values(), key=lambda x: x.id):
         if b.f["crate"] != "ironplcc":
             continue
@@ -332,7 +389,7 @@ def rule_delta(ctx, rep):
                 for fld in ("delta_line", "delta_start"):
                     fn = "From<LspTokenType>::from" if "LspTokenType" in b.id else norm(b.id).replace("ironplcc::", "")
                     inst = "%s|SemanticToken.%s" % (fn, fld)
-                    if depends_on_sub(b, ops[fld]):
+                    if depends_on_sub(b, ops[fld], carried=True):
                         r.ok(inst, loc_str(b.f, s[3]))
                     elif "LspTokenType" in b.id and reenc and not outside:
                         r.justified(inst, "absolute position, but this conversion's input (LspTokenType) is only built inside LspProject::tokenize, "
